@@ -31,6 +31,9 @@ let run (id : string) (hdr : string list) (lines : string list list) (out : stri
   let tb = write (fun _ _ -> true) bloom es in
   let have = es <> [] in
   if have then pr "W ok";
+  let probes = Drv_c11b.probes_of lines in
+  let adapter = ref false in
+  let err_str (i : titer) = if !adapter then "-" else string_of_int (b01 i.ti_err) in
   let it = ref None in
   let get_it () = match !it with Some i -> i | None -> let i = ti_new tb in it := Some i; i in
   let scan use_first =
@@ -44,37 +47,41 @@ let run (id : string) (hdr : string list) (lines : string list list) (out : stri
       i := fst (ti_next tb !i)
     done;
     it := Some !i;
-    pr (Printf.sprintf "Z %d err=0" !n) in
+    pr (Printf.sprintf "Z %d err=%s" !n (err_str !i)) in
   let rec go ls =
     match ls with
     | [] -> ()
     | ["xxh"; t] :: r -> pr ("X " ^ Drv_c11b.xxh t); go r
     | ("footer" :: args) :: r -> pr ("F " ^ Drv_c11b.footer args); go r
     | (op :: _) :: r when not have -> pr ("SKIP " ^ op); go r
-    | ["adapter"; _] :: r -> go r
+    | ["adapter"; a] :: r -> adapter := (a = "1"); go r
+    | ["probe"; _] :: r -> go r
     | ["it"] :: r -> it := Some (ti_new tb); go r
     | ["scan"] :: r -> scan true; go r
     | ["nscan"] :: r -> scan false; go r
     | ["first"] :: r ->
       let i = ti_seek_first tb in it := Some i;
-      pr (Printf.sprintf "P first ret=- valid=%d %s" (b01 (ti_valid tb i)) (cur_str tb i)); go r
+      pr (Printf.sprintf "P first ret=- valid=%d err=%s %s" (b01 (ti_valid tb i)) (err_str i) (cur_str tb i)); go r
     | ["last"] :: r ->
       let i = ti_seek_last tb in it := Some i;
-      pr (Printf.sprintf "P last ret=- valid=%d %s" (b01 (ti_valid tb i)) (cur_str tb i)); go r
+      pr (Printf.sprintf "P last ret=- valid=%d err=%s %s" (b01 (ti_valid tb i)) (err_str i) (cur_str tb i)); go r
     | ["next"] :: r ->
       let (i, ok) = ti_next tb (get_it ()) in it := Some i;
-      pr (Printf.sprintf "P next ret=%d valid=%d %s" (b01 ok) (b01 (ti_valid tb i)) (cur_str tb i)); go r
+      pr (Printf.sprintf "P next ret=%d valid=%d err=%s %s" (b01 ok) (b01 (ti_valid tb i)) (err_str i) (cur_str tb i)); go r
     | ["seek"; t] :: r ->
       let (i, ok) = ti_seek tb (bytes_of_token t) in it := Some i;
-      pr (Printf.sprintf "P seek ret=%d valid=%d %s" (b01 ok) (b01 (ti_valid tb i)) (cur_str tb i)); go r
+      pr (Printf.sprintf "P seek ret=%d valid=%d err=%s %s" (b01 ok) (b01 (ti_valid tb i)) (err_str i) (cur_str tb i)); go r
     | ["get"; k] :: r ->
       (match t_get tb (bytes_of_token k) with
        | GNotFound -> pr "G notfound"
        | GTomb -> pr "G tomb"
+       | GErr -> pr "G err"
        | GVal v -> pr ("G v:" ^ render v));
       go r
-    | ["layout"] :: r -> Drv_c11b.layout pr bloom es; go r
-    | ("corrupt" :: args) :: r -> Drv_c11b.corrupt pr bloom es args; go r
+    | ["layout"] :: r -> Drv_c11b.layout id pr bloom es; go r
+    | (("bit" | "bfirst" | "blast" | "bnext" | "bseek" | "bprev") :: _ as l) :: r ->
+      Drv_c11b.block_op id pr bloom es l; go r
+    | ("corrupt" :: args) :: r -> Drv_c11b.corrupt id pr bloom es probes args; go r
     | l :: _ -> failwith ("C11: bad line: " ^ Stdlib.String.concat " " l)
   in
   go ops
